@@ -18,7 +18,7 @@ DESIGN_REF = "§5 C10"
 RULE = "case = wait-family program + responder script (+ resume point); distinct = tick-order signature hash; non-trivial = >=1 wait returned or timed out"
 REQUIRED_REACH = ["waiter_eval", "wait_result_eval", "wait_timeout_seen", "waiter_event_eval", "resumed_case", "resumed_with_open_waiter", "double_cycle", "resumed_waiter_event_eval", "resumed_with_opaque_requirement", "replayed_wait_eval", "wait_replayed_after_its_outcome"]
 ASSUMPTIONS = ["programs never fail after a successful wait, so every wait_for_event return is a completion"]
-FAMILIES = [("wait", 4), ("waitsink", 1), ("wait2", 1)]
+FAMILIES = [("wait", 4), ("waitsink", 1), ("wait2", 1), ("selfwait", 1)]
 
 
 def plan(tier, seed):
